@@ -35,24 +35,27 @@ VARIABLES st,          \* "none" (no connection yet) | "OpenSent" | "OpenConfirm
 vars == <<st, conn, attached, adjIn, out, hold, nsess, pol, hist>>
 
 (* local configurations *)
-CfgDef == [ ebgp   |-> [ibgp |-> FALSE, hold |-> 90, role |-> "none",     strict |-> FALSE, addpath |-> FALSE, rrc |-> "no", other |-> FALSE, active |-> FALSE],
-            ibgp   |-> [ibgp |-> TRUE,  hold |-> 90, role |-> "none",     strict |-> FALSE, addpath |-> FALSE, rrc |-> "no", other |-> FALSE, active |-> FALSE],
-            hold3  |-> [ibgp |-> FALSE, hold |-> 3,  role |-> "none",     strict |-> FALSE, addpath |-> FALSE, rrc |-> "no", other |-> FALSE, active |-> FALSE],
-            cust   |-> [ibgp |-> FALSE, hold |-> 90, role |-> "customer", strict |-> FALSE, addpath |-> FALSE, rrc |-> "no", other |-> FALSE, active |-> FALSE],
-            custS  |-> [ibgp |-> FALSE, hold |-> 90, role |-> "customer", strict |-> TRUE,  addpath |-> FALSE, rrc |-> "no", other |-> FALSE, active |-> FALSE],
-            ap     |-> [ibgp |-> FALSE, hold |-> 90, role |-> "none",     strict |-> FALSE, addpath |-> TRUE, rrc |-> "no", other |-> FALSE, active |-> FALSE],
+CfgDef == [ ebgp   |-> [ibgp |-> FALSE, hold |-> 90, role |-> "none",     strict |-> FALSE, addpath |-> FALSE, rrc |-> "no", other |-> FALSE, active |-> FALSE, v6only |-> FALSE],
+            ibgp   |-> [ibgp |-> TRUE,  hold |-> 90, role |-> "none",     strict |-> FALSE, addpath |-> FALSE, rrc |-> "no", other |-> FALSE, active |-> FALSE, v6only |-> FALSE],
+            hold3  |-> [ibgp |-> FALSE, hold |-> 3,  role |-> "none",     strict |-> FALSE, addpath |-> FALSE, rrc |-> "no", other |-> FALSE, active |-> FALSE, v6only |-> FALSE],
+            cust   |-> [ibgp |-> FALSE, hold |-> 90, role |-> "customer", strict |-> FALSE, addpath |-> FALSE, rrc |-> "no", other |-> FALSE, active |-> FALSE, v6only |-> FALSE],
+            custS  |-> [ibgp |-> FALSE, hold |-> 90, role |-> "customer", strict |-> TRUE,  addpath |-> FALSE, rrc |-> "no", other |-> FALSE, active |-> FALSE, v6only |-> FALSE],
+            ap     |-> [ibgp |-> FALSE, hold |-> 90, role |-> "none",     strict |-> FALSE, addpath |-> TRUE, rrc |-> "no", other |-> FALSE, active |-> FALSE, v6only |-> FALSE],
             \* the peer is a route reflector client: the cluster id (default = the router id, or configured) takes part in loop
             \* detection exactly while the session is attached
-            rr     |-> [ibgp |-> TRUE,  hold |-> 90, role |-> "none",     strict |-> FALSE, addpath |-> FALSE, rrc |-> "default", other |-> FALSE, active |-> FALSE],
-            rrcid  |-> [ibgp |-> TRUE,  hold |-> 90, role |-> "none",     strict |-> FALSE, addpath |-> FALSE, rrc |-> "explicit", other |-> FALSE, active |-> FALSE],
+            rr     |-> [ibgp |-> TRUE,  hold |-> 90, role |-> "none",     strict |-> FALSE, addpath |-> FALSE, rrc |-> "default", other |-> FALSE, active |-> FALSE, v6only |-> FALSE],
+            rrcid  |-> [ibgp |-> TRUE,  hold |-> 90, role |-> "none",     strict |-> FALSE, addpath |-> FALSE, rrc |-> "explicit", other |-> FALSE, active |-> FALSE, v6only |-> FALSE],
             \* a session with another peer of the same VRF (same local AS) is established before and throughout the behaviour: the local
             \* AS keeps taking part in loop detection whatever this session does
-            ebgp2  |-> [ibgp |-> FALSE, hold |-> 90, role |-> "none",     strict |-> FALSE, addpath |-> FALSE, rrc |-> "no", other |-> TRUE, active |-> FALSE],
+            ebgp2  |-> [ibgp |-> FALSE, hold |-> 90, role |-> "none",     strict |-> FALSE, addpath |-> FALSE, rrc |-> "no", other |-> TRUE, active |-> FALSE, v6only |-> FALSE],
             \* the peer is not passive: its own FSM dials, gets the connection handed over (Connect) and is used again for the next
             \* session after a short pause - nothing of the previous session may survive in it
-            ebgpA  |-> [ibgp |-> FALSE, hold |-> 90, role |-> "none",     strict |-> FALSE, addpath |-> FALSE, rrc |-> "no", other |-> FALSE, active |-> TRUE],
-            ibgpA  |-> [ibgp |-> TRUE,  hold |-> 90, role |-> "none",     strict |-> FALSE, addpath |-> FALSE, rrc |-> "no", other |-> FALSE, active |-> TRUE],
-            apA    |-> [ibgp |-> FALSE, hold |-> 90, role |-> "none",     strict |-> FALSE, addpath |-> TRUE,  rrc |-> "no", other |-> FALSE, active |-> TRUE] ]
+            ebgpA  |-> [ibgp |-> FALSE, hold |-> 90, role |-> "none",     strict |-> FALSE, addpath |-> FALSE, rrc |-> "no", other |-> FALSE, active |-> TRUE, v6only |-> FALSE],
+            ibgpA  |-> [ibgp |-> TRUE,  hold |-> 90, role |-> "none",     strict |-> FALSE, addpath |-> FALSE, rrc |-> "no", other |-> FALSE, active |-> TRUE, v6only |-> FALSE],
+            apA    |-> [ibgp |-> FALSE, hold |-> 90, role |-> "none",     strict |-> FALSE, addpath |-> TRUE,  rrc |-> "no", other |-> FALSE, active |-> TRUE, v6only |-> FALSE],
+            \* only the IPv6 address family is configured for the peer
+            ap6A   |-> [ibgp |-> FALSE, hold |-> 90, role |-> "none",     strict |-> FALSE, addpath |-> TRUE,  rrc |-> "no", other |-> FALSE, active |-> TRUE, v6only |-> TRUE],
+            ap6    |-> [ibgp |-> FALSE, hold |-> 90, role |-> "none",     strict |-> FALSE, addpath |-> TRUE,  rrc |-> "no", other |-> FALSE, active |-> FALSE, v6only |-> TRUE] ]
 L == CfgDef[LocalCfg]
 RouterID == 100
 LocalAS == 65000
@@ -63,6 +66,7 @@ PeerAS == IF L.ibgp THEN LocalAS ELSE 65001
 O(as, as4, id, h, role, ver) == [as |-> as, as4 |-> as4, id |-> id, hold |-> h, role |-> role, version |-> ver]
 OpenDef == [ ok        |-> O("cfg", "cfg", "ok", 90, "none", 4),
              okNoAS4   |-> O("cfg", "none", "ok", 90, "none", 4),
+             okNoAP    |-> O("cfg", "cfg", "ok", 90, "none", 4),                 \* as ok, but without the add-path capability (see NoAP)
              okTrans   |-> O("trans", "cfg", "ok", 90, "none", 4),
              hold0     |-> O("cfg", "cfg", "ok", 0, "none", 4),
              hold3     |-> O("cfg", "cfg", "ok", 3, "none", 4),
@@ -70,6 +74,7 @@ OpenDef == [ ok        |-> O("cfg", "cfg", "ok", 90, "none", 4),
              hold1     |-> O("cfg", "cfg", "ok", 1, "none", 4),
              hold2     |-> O("cfg", "cfg", "ok", 2, "none", 4),
              badAS     |-> O("other", "other", "ok", 90, "none", 4),
+             badASgoodAS4 |-> O("other", "cfg", "ok", 90, "none", 4),            \* a real wrong AS in the 2-octet field: the capability does not repair it
              badAS4    |-> O("trans", "other", "ok", 90, "none", 4),
              transNo4  |-> O("trans", "none", "ok", 90, "none", 4),
              idZero    |-> O("cfg", "cfg", "zero", 90, "none", 4),
@@ -114,6 +119,8 @@ UpdDef == [ annA      |-> U(TRUE, {N("a", 0)}, {}, {}),
             annC6D6   |-> U(TRUE, {N("c6", 0), N("d6", 0)}, {}, {}),
             apA1A2    |-> U(TRUE, {N("a", 1), N("a", 2)}, {}, {}),             \* add-path: two paths of one prefix, own ids
             apA1B2    |-> U(TRUE, {N("a", 1), N("b", 2)}, {}, {}),
+            apC1C2    |-> U(TRUE, {N("c6", 1), N("c6", 2)}, {}, {}),           \* IPv6, two paths of one prefix
+            apWdC1    |-> U(TRUE, {}, {N("c6", 1)}, {}),
             apA0A1    |-> U(TRUE, {N("a", 0), N("a", 1)}, {}, {}),             \* path identifier 0 is an identifier like any other
             apWdA0    |-> U(TRUE, {}, {N("a", 0)}, {}),
             apWdA1    |-> U(TRUE, {}, {N("a", 1)}, {}),
@@ -138,7 +145,8 @@ UpdDef == [ annA      |-> U(TRUE, {N("a", 0)}, {}, {}),
             noNextHopMP   |-> U(FALSE, {N("a", 0), N("c6", 0)}, {}, {3}),      \* IPv4 NLRI without NEXT_HOP next to an MP_REACH_NLRI
             mpNoOrigin    |-> U(FALSE, {N("c6", 0)}, {}, {3}),                 \* MP_REACH_NLRI without ORIGIN
             mpNoASPath    |-> U(FALSE, {N("c6", 0)}, {}, {3}),                  \* NLRI but no path attributes at all
-            nlriTrunc     |-> U(FALSE, {N("a", 0)}, {}, {10, 1}) ]
+            nlriTrunc     |-> U(FALSE, {N("a", 0)}, {}, {10, 1}),
+            mpNH32short   |-> U(FALSE, {N("c6", 0)}, {}, {}) ]                  \* MP_REACH_NLRI announces a 32-byte next hop, 20 bytes follow
 
 -----------------------------------------------------------------------------
 Msg(k, c, s) == [kind |-> k, code |-> c, sub |-> s]
@@ -152,12 +160,19 @@ OutOf(att, pl) == IF att /\ pl.exp = "accept" THEN pl.orig ELSE {}
 St == [st |-> st', conn |-> conn', attached |-> attached', adjin |-> adjIn', out |-> out', hold |-> hold', nsess |-> nsess',
        imp |-> pol'.imp, exp |-> pol'.exp, loc |-> LocOf(attached', adjIn', pol'), adjout |-> OutOf(attached', pol'),
        asn |-> attached' \/ L.other]                                      \* the local AS takes part in the VRF's loop detection
-LogP(r) == hist' = Append(hist, r @@ [s |-> St])
+(* add-path is in force on the current connection only if both sides advertised it: the peer's OPEN classes in NoAP lack the      *)
+(* capability.  The negotiated value is carried in the log (field ap of every entry) rather than in a variable of its own.        *)
+NoAP == {"okNoAP"}
+ApOf(h) == IF h = <<>> THEN FALSE ELSE h[Len(h)].ap
+ApAfter(r) == IF r.a = "Connect" THEN FALSE
+              ELSE IF r.a = "RecvOpen" THEN (st' = "OpenConfirm" /\ L.addpath /\ r.o \notin NoAP)
+              ELSE IF st' \in {"Idle", "none"} THEN FALSE ELSE ApOf(hist)
+LogP(r) == hist' = Append(hist, r @@ [s |-> St, ap |-> ApAfter(r)])
 Log(r) == UNCHANGED pol /\ LogP(r)
 
 Init == /\ st = "none" /\ conn = "none" /\ attached = FALSE /\ adjIn = {} /\ out = <<>> /\ hold = 0 /\ nsess = 0
         /\ pol = [imp |-> "accept", exp |-> "accept", orig |-> {}]
-        /\ hist = << [a |-> "Config", cfg |-> L, cfgname |-> LocalCfg,
+        /\ hist = << [a |-> "Config", cfg |-> L, cfgname |-> LocalCfg, ap |-> FALSE,
                       s |-> [st |-> "none", conn |-> "none", attached |-> FALSE, adjin |-> {}, out |-> <<>>, hold |-> 0, nsess |-> 0,
                              imp |-> "accept", exp |-> "accept", loc |-> {}, adjout |-> {}, asn |-> L.other]] >>
 
@@ -184,7 +199,7 @@ RecvOpen(o) ==
                  /\ UNCHANGED <<conn, attached, adjIn, nsess>>
             ELSE ToIdle(<<Notif(v[1], v[2])>>)
        ELSE ToIdle(<<Notif(5, 0)>>)                                             \* FSM error
-    /\ Log([a |-> "RecvOpen", o |-> o, open |-> OpenDef[o]])
+    /\ Log([a |-> "RecvOpen", o |-> o, open |-> OpenDef[o], noap |-> o \in NoAP])
 
 RecvKeepalive ==
     /\ st \in {"OpenSent", "OpenConfirm", "Established"}
@@ -194,9 +209,11 @@ RecvKeepalive ==
          [] st = "Established" -> UNCHANGED <<st, conn, attached, adjIn, out, hold, nsess>>
     /\ Log([a |-> "RecvKeepalive"])
 
+(* without add-path the path identifiers of an UPDATE class are not on the wire: everything is identifier 0 *)
+Flat(ns) == IF ApOf(hist) THEN ns ELSE {N(n.pfx, 0) : n \in ns}
 Applies(u) == LET d == UpdDef[u] IN
-    {e \in adjIn : ~(\E w \in d.withdraw : w.pfx = e.pfx /\ (L.addpath => w.pid = e.pid))
-                   /\ ~(\E n \in d.announce : n.pfx = e.pfx /\ (L.addpath => n.pid = e.pid))} \cup d.announce
+    {e \in adjIn : ~(\E w \in Flat(d.withdraw) : w.pfx = e.pfx /\ w.pid = e.pid)
+                   /\ ~(\E n \in Flat(d.announce) : n.pfx = e.pfx /\ n.pid = e.pid)} \cup Flat(d.announce)
 
 RecvUpdate(u) ==
     /\ st \in {"OpenSent", "OpenConfirm", "Established"}
@@ -214,7 +231,8 @@ RecvGarbage(g) ==
 
 (* NOTIFICATIONs the peer may send: a plain Cease, one with data, and ones whose code / subcode this speaker does not know *)
 (* (RFC 7313 code 7, a header error subcode beyond 3): whatever it says, the session ends, nothing is sent back          *)
-NotifDef == [Notification |-> <<6, 0, 0>>, NotifData |-> <<6, 2, 5>>, NotifCode7 |-> <<7, 1, 0>>, NotifBadSub |-> <<1, 9, 0>>]
+NotifDef == [Notification |-> <<6, 0, 0>>, NotifData |-> <<6, 2, 5>>, NotifCode7 |-> <<7, 1, 0>>, NotifBadSub |-> <<1, 9, 0>>,
+             NotifHdr |-> <<1, 2, 0>>, NotifOpen |-> <<2, 1, 2>>]
 RecvNotification(n) ==
     /\ st \in {"OpenSent", "OpenConfirm", "Established"}
     /\ ToIdle(<<>>)
@@ -224,7 +242,7 @@ RecvNotification(n) ==
 ConnLost ==
     /\ st \in {"OpenSent", "OpenConfirm", "Established"}
     /\ ToIdle(<<>>)
-    /\ Log([a |-> "ConnLost"])
+    /\ Log([a |-> "ConnLost", from |-> st])
 
 HoldExpires ==
     /\ st \in {"OpenConfirm", "Established"} /\ hold # 0
